@@ -9,7 +9,7 @@ VERIF = os.path.dirname(os.path.dirname(os.path.abspath(__file__)))
 REPO = os.environ.get('VERIF_REPO', '/repo')
 LEAN = os.path.join(VERIF, 'lean')
 CACHE = os.path.join(VERIF, '.cache')
-EVID = os.path.join(VERIF, 'evidence')
+EVID = os.environ.get('VERIF_EVIDENCE_DIR') or os.path.join(VERIF, 'evidence')   # development runs (seeded changes, other seeds) redirect it
 REPLAYS = os.path.join(VERIF, 'replays')
 MODEL_EXE = os.path.join(LEAN, '.lake/build/bin/cctz_model')
 GUARD = 'GOOGLE_CCTZ_VERIF'
